@@ -13,8 +13,16 @@
        list of (multiplier, stage) pairs that were applied to that entry while it travelled through the windows of the
        stages j < r: both are pure data movement, defined by recursion over the stages from al and index.
        Without exchanges (index[k] = k+1) the list is  [(al[j][r-j-1], j) | j = r - min r m1 .. r-1]  ([fhist_noswap]).
+   band_dec_trace  :  the main loop of [decompose] (partial pivoting inside the window, multipliers stored in al, the
+         eliminated rows shifted one slot to the left) started on the shifted work matrix au0 and ending with nonzero
+         pivots: with D0 i c the dense reading of au0 (slot s of row i is column (i - m1) + s, zero elsewhere),
+           au[r][s]  = sfold [(a, au[j][c-j]) | (a,j) in fhist r, c - j < mm] (D0 (fperm r) c) ,  c = r + s    (U part)
+           a_t       = (sfold [(a, au[j][j_t-j]) | the earlier (a,j) of fhist r, ...] (D0 (fperm r) j_t)) / au[j_t][0]
+                                                                  for the t-th pair (a_t, j_t) of fhist r   (L part)
+         with the SAME histories and permutation as the forward phase: the forward phase replays on b what the
+         factorisation did to the rows.  Also: cols, and k+1 <= index[k] <= min (k+1+m1) n (what band_fwd_trace needs).
    Every statement about these loops -- at the rounded reals (Proofs/Round2BandB.v) as at any other instance -- reduces
-   to a statement about one left fold per row. *)
+   to a statement about one left fold per entry. *)
 From Coq Require Import List Arith Lia Bool.
 From OV Require Import Base.Panic Base.Arith Model.Vector Model.Matrix Model.Banded Proofs.Banded Proofs.BandedLU.
 Import ListNotations.
@@ -260,3 +268,451 @@ Proof.
 Qed.
 
 End BandTrace.
+
+(* ================================================================ the factorisation: decompose, over any arithmetic
+   in which  eqb x zero = true -> x = zero  (true at Qc and at the rounded reals; no ring law is used) *)
+Section DecTrace.
+Context {A : Arith}.
+Notation T := (T A).
+Notation matrix := (matrix A).
+
+(* what the multiplier line stores: zero against a pivot that compares equal to zero, the quotient otherwise *)
+Definition mult_rel (akk aik m : T) : Prop := if eqb akk zero then m = zero else div aik akk = Ok m.
+
+Lemma multiplier_tr (au : matrix) mm k i m :
+  cols au = mm -> multiplier false au k i = Ok m -> mult_rel (mat_at au mm k 0) (mat_at au mm i 0) m.
+Proof.
+  intros Hc H. unfold multiplier in H. unfold mult_rel.
+  apply bind_ok in H as (akk & Ek & H). apply (mget_Ok_inv _ mm) in Ek as (-> & _); auto.
+  destruct (eqb (mat_at au mm k 0) zero) eqn:E; [now injection H as <-|].
+  apply bind_ok in H as (aik & Ei & H). apply (mget_Ok_inv _ mm) in Ei as (-> & _); auto.
+  apply bind_ok in H as (akk & Ek & H). apply (mget_Ok_inv _ mm) in Ek as (-> & _); auto.
+Qed.
+
+(* row i after its elimination against row k with the multiplier m: shifted one slot to the left, zero appended *)
+Definition elim_val (au : matrix) (mm k i : nat) (m : T) (s : nat) : T :=
+  if s <? mm - 1 then sub (mat_at au mm i (s + 1)) (mul m (mat_at au mm k (s + 1))) else zero.
+
+Lemma elim_row_tr (au al au' al' : matrix) mm m1 k i :
+  cols au = mm -> cols al = m1 -> 1 <= mm -> i <> k -> i - k - 1 < m1 ->
+  elim_row false mm k i (au, al) = Ok (au', al') ->
+  cols au' = mm /\ cols al' = m1 /\
+  mult_rel (mat_at au mm k 0) (mat_at au mm i 0) (mat_at al' m1 k (i - k - 1)) /\
+  (forall i' s, s < mm -> mat_at au' mm i' s =
+      if i' =? i then elim_val au mm k i (mat_at al' m1 k (i - k - 1)) s else mat_at au mm i' s) /\
+  (forall i' t, t < m1 -> (i' =? k) && (t =? i - k - 1) = false -> mat_at al' m1 i' t = mat_at al m1 i' t).
+Proof.
+  intros Hc Hcl Hmm Hik Ht H. unfold elim_row in H.
+  apply bind_ok in H as (m & Em & H). apply (multiplier_tr _ mm) in Em; auto.
+  apply bind_ok in H as (al1 & Eal & H). apply (mset_Ok_inv _ _ m1) in Eal as (Hcl1 & _ & Hal1); auto.
+  apply bind_ok in H as (au1 & Eloop & H).
+  apply bind_ok in H as (au2 & Elast & H). injection H as <- <-.
+  assert (Hm : mat_at al1 m1 k (i - k - 1) = m).
+  { rewrite Hal1 by auto. now rewrite !Nat.eqb_refl. }
+  assert (HI : cols au1 = mm /\ forall i' s, s < mm ->
+            mat_at au1 mm i' s = if (i' =? i) && (s <? mm - 1)
+                                 then sub (mat_at au mm i (s + 1)) (mul m (mat_at au mm k (s + 1)))
+                                 else mat_at au mm i' s).
+  { refine (for_inv_partial (fun j (a : matrix) => cols a = mm /\ forall i' s, s < mm ->
+              mat_at a mm i' s = if (i' =? i) && (s <? j - 1)
+                                 then sub (mat_at au mm i (s + 1)) (mul m (mat_at au mm k (s + 1)))
+                                 else mat_at au mm i' s) 1 mm _ au au1 Hmm _ _ Eloop).
+    - split; auto. intros i' s Hs. cbn. now rewrite andb_false_r.
+    - intros j a a1 Hj (Hca & Ha) E.
+      apply bind_ok in E as (aij & Eij & E). apply (mget_Ok_inv _ mm) in Eij as (-> & _); auto.
+      apply bind_ok in E as (akj & Ekj & E). apply (mget_Ok_inv _ mm) in Ekj as (-> & _); auto.
+      apply (mset_Ok_inv _ _ mm) in E as (Hc1 & _ & H1); auto; [|lia].
+      split; auto. intros i' s Hs. rewrite H1 by auto. rewrite !Ha by lia.
+      rewrite Nat.eqb_refl. cbn [andb].
+      replace (k =? i) with false by (symmetry; apply Nat.eqb_neq; auto). cbn [andb].
+      replace (j <? j - 1) with false by (symmetry; apply Nat.ltb_ge; lia).
+      destruct (Nat.eqb_spec i' i) as [->|]; cbn [andb]; auto.
+      destruct (Nat.eqb_spec s (j - 1)) as [->|].
+      + replace (j - 1 <? S j - 1) with true by (symmetry; apply Nat.ltb_lt; lia).
+        now replace (j - 1 + 1) with j by lia.
+      + destruct (Nat.ltb_spec s (j - 1)); destruct (Nat.ltb_spec s (S j - 1)); try lia; auto. }
+  destruct HI as (Hc1 & H1).
+  apply (mset_Ok_inv _ _ mm) in Elast as (Hc2 & _ & H2); auto; [|lia].
+  split; [auto|]. split; [auto|]. split; [now rewrite Hm|]. split.
+  - intros i' s Hs. rewrite H2, H1 by auto. rewrite Hm. unfold elim_val.
+    destruct (Nat.eqb_spec i' i) as [->|]; cbn [andb]; auto.
+    destruct (Nat.eqb_spec s (mm - 1)) as [->|].
+    + now rewrite Nat.ltb_irrefl.
+    + replace (s <? mm - 1) with true by (symmetry; apply Nat.ltb_lt; lia). reflexivity.
+  - intros i' t Ht' Hne. rewrite Hal1 by auto. now rewrite Hne.
+Qed.
+
+(* the elimination loop over the window rows k+1 .. l-1: the multipliers are read off al' *)
+Lemma elim_loop_tr (au al au' al' : matrix) mm m1 k l :
+  cols au = mm -> cols al = m1 -> 1 <= mm -> l <= k + 1 + m1 ->
+  for_ (k + 1) l (elim_row false mm k) (au, al) = Ok (au', al') ->
+  cols au' = mm /\ cols al' = m1 /\
+  (forall i, k < i < l -> mult_rel (mat_at au mm k 0) (mat_at au mm i 0) (mat_at al' m1 k (i - k - 1))) /\
+  (forall i s, s < mm -> mat_at au' mm i s =
+      if (k <? i) && (i <? l) then elim_val au mm k i (mat_at al' m1 k (i - k - 1)) s else mat_at au mm i s) /\
+  (forall i t, t < m1 -> (i =? k) && (k + 1 + t <? l) = false -> mat_at al' m1 i t = mat_at al m1 i t).
+Proof.
+  intros Hc Hcl Hmm Hl H.
+  destruct (Nat.le_gt_cases (k + 1) l) as [Hkl|Hkl].
+  2:{ rewrite for_empty in H by lia. injection H as <- <-. repeat split; auto.
+      - intros i Hi. lia.
+      - intros i s Hs. replace ((k <? i) && (i <? l)) with false; auto.
+        symmetry. apply andb_false_iff. destruct (Nat.ltb_spec k i); destruct (Nat.ltb_spec i l); auto; lia. }
+  set (P := fun j (st : matrix * matrix) =>
+     cols (fst st) = mm /\ cols (snd st) = m1 /\
+     (forall i, k < i < j -> mult_rel (mat_at au mm k 0) (mat_at au mm i 0) (mat_at (snd st) m1 k (i - k - 1))) /\
+     (forall i s, s < mm -> mat_at (fst st) mm i s =
+         if (k <? i) && (i <? j) then elim_val au mm k i (mat_at (snd st) m1 k (i - k - 1)) s else mat_at au mm i s) /\
+     (forall i t, t < m1 -> (i =? k) && (k + 1 + t <? j) = false -> mat_at (snd st) m1 i t = mat_at al m1 i t)).
+  assert (HP : P l (au', al')).
+  { refine (for_inv_partial P (k + 1) l _ (au, al) (au', al') Hkl _ _ H).
+    - unfold P; cbn [fst snd]. repeat split; auto.
+      + intros i Hi. lia.
+      + intros i s Hs. replace ((k <? i) && (i <? k + 1)) with false; auto.
+        symmetry. apply andb_false_iff. destruct (Nat.ltb_spec k i); destruct (Nat.ltb_spec i (k + 1)); auto; lia.
+    - intros j [a b] [a1 b1] Hj (Hca & Hcb & Hm & Ha & Hb) E. cbn [fst snd] in *.
+      assert (Hrow : forall u, u < mm -> mat_at a mm j u = mat_at au mm j u /\ mat_at a mm k u = mat_at au mm k u).
+      { intros u Hu. rewrite !Ha by auto.
+        replace ((k <? j) && (j <? j)) with false by (rewrite Nat.ltb_irrefl; now rewrite andb_false_r).
+        replace ((k <? k) && (k <? j)) with false by (rewrite Nat.ltb_irrefl; reflexivity). auto. }
+      apply (elim_row_tr _ _ _ _ mm m1) in E as (Hc1 & Hcb1 & Hm1 & Ha1 & Hb1); auto; try lia.
+      assert (Hbold : forall i, k < i < j -> mat_at b1 m1 k (i - k - 1) = mat_at b m1 k (i - k - 1)).
+      { intros i Hi. apply Hb1; [lia|]. rewrite Nat.eqb_refl. cbn [andb]. apply Nat.eqb_neq. lia. }
+      unfold P; cbn [fst snd]. split; [auto|]. split; [auto|]. split; [|split].
+      + intros i Hi. destruct (Nat.eq_dec i j) as [->|Ne].
+        * destruct (Hrow 0 ltac:(lia)) as (<- & <-). exact Hm1.
+        * rewrite Hbold by lia. apply Hm. lia.
+      + intros i s Hs. rewrite Ha1 by auto.
+        destruct (Nat.eqb_spec i j) as [->|Hne].
+        * replace ((k <? j) && (j <? S j)) with true
+            by (symmetry; apply andb_true_iff; split; apply Nat.ltb_lt; lia).
+          unfold elim_val. destruct (s <? mm - 1) eqn:Es; auto.
+          apply Nat.ltb_lt in Es. destruct (Hrow (s + 1)) as (-> & ->); [lia|]. reflexivity.
+        * rewrite Ha by auto.
+          destruct (Nat.ltb_spec k i); destruct (Nat.ltb_spec i j); destruct (Nat.ltb_spec i (S j)); cbn [andb]; auto; try lia.
+          now rewrite Hbold by lia.
+      + intros i t Ht Hne.
+        assert (Hne1 : (i =? k) && (t =? j - k - 1) = false).
+        { destruct (Nat.eqb_spec i k) as [->|]; cbn [andb] in *; auto.
+          apply Nat.eqb_neq. apply Nat.ltb_ge in Hne. lia. }
+        assert (Hne2 : (i =? k) && (k + 1 + t <? j) = false).
+        { destruct (Nat.eqb_spec i k); cbn [andb] in *; auto.
+          apply Nat.ltb_ge. apply Nat.ltb_ge in Hne. lia. }
+        rewrite Hb1 by auto. apply Hb; auto. }
+  destruct HP as (H1 & H2 & H3 & H4 & H5). auto.
+Qed.
+
+Hypothesis Hz : forall x : T, eqb x zero = true -> x = zero.
+
+(* ---- one stage of decompose ---- *)
+Lemma dec_step_tr n mm m1 k (au al : matrix) (index : list nat) (d : T) l
+      (au' al' : matrix) (index' : list nat) (d' : T) l' :
+  cols au = mm -> cols al = m1 -> 1 <= mm -> lnext n l <= k + 1 + m1 ->
+  dec_step false n mm k (au, al, index, d, l) = Ok (au', al', index', d', l') ->
+  exists p,
+    (p = k \/ (k < p /\ p < l')) /\ l' = lnext n l /\ cols au' = mm /\ cols al' = m1 /\
+    k < length index /\ index' = upd_list index k (p + 1) /\
+    (forall i s, i < k -> s < mm -> mat_at au' mm i s = mat_at au mm i s) /\
+    (forall i t, t < m1 -> (i =? k) && (k + 1 + t <? l') = false -> mat_at al' m1 i t = mat_at al m1 i t) /\
+    (mat_at au' mm k 0 <> zero ->
+     let a2 := fun i s => mat_at au mm (swp k p i) s in
+     (forall i, k < i < l' -> div (a2 i 0) (a2 k 0) = Ok (mat_at al' m1 k (i - k - 1))) /\
+     (forall i s, s < mm -> mat_at au' mm i s =
+        if (k <? i) && (i <? l')
+        then (if s <? mm - 1 then sub (a2 i (s + 1)) (mul (mat_at al' m1 k (i - k - 1)) (a2 k (s + 1))) else zero)
+        else a2 i s)).
+Proof.
+  intros Hc Hcl Hmm Hl H. unfold dec_step in H. fold (lnext n l) in H.
+  apply bind_ok in H as ([dum p] & Ep & H). apply (find_pivot_Ok_inv _ mm) in Ep as (Hp & Hdum); auto.
+  apply bind_ok in H as (index1 & Ei & H). apply upd_Ok_inv in Ei as (Hki & ->).
+  apply bind_ok in H as (au1 & E1 & H).
+  apply bind_ok in H as ([au2 d2] & E2 & H).
+  apply bind_ok in H as ([au3 al3] & E3 & H). injection H as <- <- <- <- <-.
+  assert (H1 : cols au1 = mm /\ forall i s, s < mm -> mat_at au1 mm i s =
+             if eqb dum zero then (if (i =? k) && (s =? 0) then zero else mat_at au mm i s) else mat_at au mm i s).
+  { destruct (eqb dum zero); [|injection E1 as <-; auto].
+    apply (mset_Ok_inv _ _ mm) in E1 as (Hc1 & _ & H1); auto; lia. }
+  destruct H1 as (Hc1 & H1).
+  assert (H2 : cols au2 = mm /\ forall i s, s < mm -> mat_at au2 mm i s = mat_at au1 mm (swp k p i) s).
+  { destruct (Nat.eqb_spec p k) as [->|Hpk]; cbn [negb] in E2.
+    - injection E2 as <- <-. split; auto. intros i s Hs. unfold swp.
+      destruct (Nat.eqb_spec i k) as [->|]; auto.
+    - apply bind_ok in E2 as (au2' & Esw & E2). injection E2 as <- <-.
+      apply (swap_band_rows_Ok_inv _ _ mm) in Esw as (Hc2 & Hsw); auto.
+      split; auto. intros i s Hs. rewrite Hsw by auto. unfold swp.
+      destruct (i =? k); auto. destruct (i =? p); auto. }
+  destruct H2 as (Hc2 & H2).
+  apply (elim_loop_tr _ _ _ _ mm m1) in E3 as (Hc3 & Hcl3 & Hm3 & H3 & Hal3); auto.
+  exists p. split; [exact Hp|]. split; [reflexivity|]. split; [auto|]. split; [auto|]. split; [auto|].
+  split; [reflexivity|]. split; [|split].
+  - intros i s Hi Hs. rewrite H3 by auto.
+    replace (k <? i) with false by (symmetry; apply Nat.ltb_ge; lia). cbn [andb].
+    rewrite H2 by auto. unfold swp.
+    destruct (Nat.eqb_spec i k); [lia|]. destruct (Nat.eqb_spec i p); [lia|].
+    rewrite H1 by auto. destruct (eqb dum zero); auto.
+    destruct (Nat.eqb_spec i k); [lia|reflexivity].
+  - exact Hal3.
+  - intros Hpiv. cbn zeta.
+    assert (Hk0 : mat_at au3 mm k 0 = mat_at au1 mm p 0).
+    { rewrite H3 by lia. rewrite Nat.ltb_irrefl. cbn [andb]. rewrite H2 by lia. unfold swp. now rewrite Nat.eqb_refl. }
+    assert (Ez : eqb dum zero = false).
+    { destruct (eqb dum zero) eqn:Ez; auto. exfalso. apply Hz in Ez. apply Hpiv. rewrite Hk0, H1 by lia.
+      destruct (Nat.eqb_spec p k) as [->|]; cbn [andb]; auto. congruence. }
+    rewrite Ez in H1.
+    assert (Ha2 : forall i s, s < mm -> mat_at au2 mm i s = mat_at au mm (swp k p i) s).
+    { intros i s Hs. rewrite H2, H1 by auto. reflexivity. }
+    assert (Ek0 : eqb (mat_at au2 mm k 0) zero = false).
+    { destruct (eqb (mat_at au2 mm k 0) zero) eqn:Ek; auto. exfalso. apply Hz in Ek. apply Hpiv.
+      rewrite H3 by lia. rewrite Nat.ltb_irrefl. cbn [andb]. exact Ek. }
+    split.
+    + intros i Hi. specialize (Hm3 i Hi). unfold mult_rel in Hm3. rewrite Ek0 in Hm3.
+      rewrite <- !Ha2 by lia. exact Hm3.
+    + intros i s Hs. rewrite H3 by auto.
+      destruct ((k <? i) && (i <? lnext n l)); [|now apply Ha2].
+      unfold elim_val. destruct (Nat.ltb_spec s (mm - 1)); auto.
+      now rewrite !Ha2 by lia.
+Qed.
+
+(* ---- the histories only look at the stages already done ---- *)
+Lemma fhist_ext n m1 (al al' : matrix) (index index' : list nat) k i :
+  (forall k' t, k' < k -> t < m1 -> mat_at al' m1 k' t = mat_at al m1 k' t) ->
+  (forall k', k' < k -> nth k' index' 0 = nth k' index 0) ->
+  fhist n m1 al' index' k i = fhist n m1 al index k i.
+Proof.
+  revert i. induction k as [|k IH]; intros i Hal Hix; [reflexivity|]. cbn [fhist].
+  unfold fpiv. rewrite Hix by lia. rewrite IH by (intros; (apply Hal || apply Hix); lia).
+  destruct ((k <? i) && (i <? fwin n m1 k)) eqn:W; [|reflexivity].
+  apply andb_true_iff in W as (W1 & W2). apply Nat.ltb_lt in W1, W2. unfold fwin in W2.
+  rewrite Hal by lia. reflexivity.
+Qed.
+
+Lemma fperm_ext (index index' : list nat) k i :
+  (forall k', k' < k -> nth k' index' 0 = nth k' index 0) -> fperm index' k i = fperm index k i.
+Proof.
+  revert i. induction k as [|k IH]; intros i Hix; [reflexivity|]. cbn [fperm].
+  unfold fpiv. rewrite Hix by lia. apply IH. intros; apply Hix; lia.
+Qed.
+
+(* an entry not yet settled has only moved downwards *)
+Lemma fperm_le (index : list nat) k i :
+  (forall k', k' < k -> k' <= fpiv index k') -> k <= i -> fperm index k i <= i.
+Proof.
+  revert i. induction k as [|k IH]; intros i Hix Hi; [cbn; lia|]. cbn [fperm].
+  pose proof (Hix k ltac:(lia)) as Hp.
+  assert (IH' : forall j, k <= j -> fperm index k j <= j) by (intros j Hj; apply IH; [intros; apply Hix; lia|exact Hj]).
+  unfold swp. destruct (Nat.eqb_spec i k); [lia|].
+  destruct (Nat.eqb_spec i (fpiv index k)) as [->|].
+  - specialize (IH' k ltac:(lia)). lia.
+  - apply IH'. lia.
+Qed.
+
+Lemma In_firstn_In {X} (l : list X) t x : In x (firstn t l) -> In x l.
+Proof.
+  revert t. induction l as [|a l IH]; intros [|t] H; cbn in *; auto; try contradiction.
+  destruct H as [H|H]; auto. right. eapply IH; eauto.
+Qed.
+
+Section DecLoop.
+Variables (n mm m1 : nat) (au0 : matrix).
+
+(* dense reading of the work matrix the main loop starts from (after the left shift of the first m1 rows):
+   slot s of row i is column (i - m1) + s; everything else is zero *)
+Definition D0 (i c : nat) : T :=
+  if (i - m1 <=? c) && (c - (i - m1) <? mm) then mat_at au0 mm i (c - (i - m1)) else zero.
+
+(* the pairs of a history that reach column c (stage j stores the columns j .. j+mm-1 of its pivot row) *)
+Definition uterms (au : matrix) (c : nat) (h : list (T * nat)) : list (T * T) :=
+  map (fun p => (fst p, mat_at au mm (snd p) (c - snd p))) (filter (fun p => c - snd p <? mm) h).
+
+Lemma uterms_app au c h1 h2 : uterms au c (h1 ++ h2) = uterms au c h1 ++ uterms au c h2.
+Proof. unfold uterms. now rewrite filter_app, map_app. Qed.
+
+Lemma uterms_single au c m j :
+  uterms au c [(m, j)] = if c - j <? mm then [(m, mat_at au mm j (c - j))] else [].
+Proof. unfold uterms. cbn [filter snd]. destruct (c - j <? mm); reflexivity. Qed.
+
+Lemma uterms_ext au au' c h :
+  (forall p, In p h -> c - snd p < mm -> mat_at au' mm (snd p) (c - snd p) = mat_at au mm (snd p) (c - snd p)) ->
+  uterms au' c h = uterms au c h.
+Proof.
+  intros H. unfold uterms. apply map_ext_in. intros p Hp. apply filter_In in Hp as (Hp & Hc).
+  apply Nat.ltb_lt in Hc. now rewrite H.
+Qed.
+
+Lemma uterms_far au c h k : (forall p, In p h -> snd p < k) -> k + mm <= c + 1 -> uterms au c h = [].
+Proof.
+  intros H Hc. unfold uterms. replace (filter (fun p => c - snd p <? mm) h) with (@nil (T * nat)); [reflexivity|].
+  symmetry. induction h as [|a h IH]; [reflexivity|]. cbn [filter].
+  pose proof (H a (or_introl eq_refl)). replace (c - snd a <? mm) with false by (symmetry; apply Nat.ltb_ge; lia).
+  apply IH. intros p Hp. apply H. now right.
+Qed.
+
+Definition rowtr (au al : matrix) (index : list nat) (k i c : nat) : T :=
+  sfold (uterms au c (fhist n m1 al index k i)) (D0 (fperm index k i) c).
+
+(* every multiplier of a history is the quotient of the value its row had in the pivot column by the pivot *)
+Definition lok (au al : matrix) (index : list nat) (k i : nat) : Prop :=
+  let h := fhist n m1 al index k i in
+  forall t, t < length h ->
+    div (sfold (uterms au (snd (nth t h (zero, 0))) (firstn t h)) (D0 (fperm index k i) (snd (nth t h (zero, 0)))))
+        (mat_at au mm (snd (nth t h (zero, 0))) 0)
+    = Ok (fst (nth t h (zero, 0))).
+
+Definition dec_inv (k : nat) (st : dec_state) : Prop :=
+  let '(au, al, index, _, l) := st in
+  cols au = mm /\ cols al = m1 /\ l = Nat.min (k + m1) n /\
+  (forall k', k' < k -> k' + 1 <= nth k' index 0 /\ nth k' index 0 <= fwin n m1 k') /\
+  ((forall k', k' < k -> mat_at au mm k' 0 <> zero) ->
+   (forall i s, i < n -> s < mm -> mat_at au mm i s = rowtr au al index k i (c_of m1 k i + s)) /\
+   (forall i, i < n -> lok au al index k i)).
+
+Lemma dec_inv_step k (st st' : dec_state) :
+  1 <= mm -> m1 <= n -> k < n -> dec_inv k st -> dec_step false n mm k st = Ok st' -> dec_inv (S k) st'.
+Proof.
+  intros Hmm Hm1 Hk HI E.
+  destruct st as [[[[au al] index] d] l]. destruct st' as [[[[au' al'] index'] d'] l'].
+  destruct HI as (Hc & Hcl & Hl & Hix & Hcond).
+  assert (Hln : lnext n l <= k + 1 + m1) by (subst l; rewrite lnext_min by auto; lia).
+  destruct (dec_step_tr n mm m1 k au al index d l au' al' index' d' l' Hc Hcl Hmm Hln E)
+    as (p & Hp & Hl' & Hc' & Hcl' & Hki & Hix' & Hfr & Hfal & Hdet).
+  subst l. rewrite lnext_min in Hl' by auto. fold (fwin n m1 k) in Hl'. subst l'.
+  assert (Hpk : k <= p /\ p < fwin n m1 k) by (unfold fwin in *; lia).
+  assert (Hwn : fwin n m1 k <= n /\ fwin n m1 k <= k + 1 + m1) by (unfold fwin; lia).
+  assert (Hixk : nth k index' 0 = p + 1) by (rewrite Hix', nth_upd_list by auto; now rewrite Nat.eqb_refl).
+  assert (Hixo : forall k', k' < k -> nth k' index' 0 = nth k' index 0).
+  { intros k' Hk'. rewrite Hix', nth_upd_list by auto. destruct (Nat.eqb_spec k' k); [lia|reflexivity]. }
+  assert (Halo : forall k' t, k' < k -> t < m1 -> mat_at al' m1 k' t = mat_at al m1 k' t).
+  { intros k' t Hk' Ht. apply Hfal; auto. destruct (Nat.eqb_spec k' k); [lia|reflexivity]. }
+  unfold dec_inv. split; [auto|]. split; [auto|]. split; [unfold fwin; lia|]. split.
+  { intros k' Hk'. destruct (Nat.eq_dec k' k) as [->|Ne]; [rewrite Hixk; lia|].
+    rewrite Hixo by lia. apply Hix. lia. }
+  intros Hpiv.
+  assert (Hpiv0 : forall k', k' < k -> mat_at au mm k' 0 <> zero).
+  { intros k' Hk'. rewrite <- Hfr by lia. apply Hpiv. lia. }
+  destruct (Hcond Hpiv0) as (Hrow & Hlok). clear Hcond.
+  destruct (Hdet (Hpiv k ltac:(lia))) as (Hmul & Hnew). cbn zeta in Hmul, Hnew. clear Hdet.
+  (* the histories of stage k+1 *)
+  assert (Hfp : fpiv index' k = p) by (unfold fpiv; rewrite Hixk; lia).
+  assert (Hh : forall i, fhist n m1 al' index' (S k) i =
+             if (k <? i) && (i <? fwin n m1 k)
+             then fhist n m1 al index k (swp k p i) ++ [(mat_at al' m1 k (i - k - 1), k)]
+             else fhist n m1 al index k (swp k p i)).
+  { intros i. cbn [fhist]. rewrite Hfp. now rewrite (fhist_ext n m1 al al' index index' k) by auto. }
+  assert (Hpm : forall i, fperm index' (S k) i = fperm index k (swp k p i)).
+  { intros i. cbn [fperm]. rewrite Hfp. now apply fperm_ext. }
+  assert (Hut : forall c h, (forall q, In q h -> snd q < k) -> uterms au' c h = uterms au c h).
+  { intros c h Hh'. apply uterms_ext. intros q Hq Hcq. apply Hfr; [now apply Hh'|exact Hcq]. }
+  assert (Hswn : forall i, i < n -> swp k p i < n).
+  { intros i Hi. unfold swp. destruct (i =? k); [lia|]. destruct (i =? p); lia. }
+  assert (Hrowk : forall s, s < mm -> mat_at au' mm k s = mat_at au mm p s).
+  { intros s Hs. rewrite Hnew by auto. rewrite Nat.ltb_irrefl. cbn [andb]. unfold swp. now rewrite Nat.eqb_refl. }
+  assert (Hcw : forall j, k <= j -> j < fwin n m1 k -> c_of m1 k j = k).
+  { intros j Hj1 Hj2. unfold c_of. destruct (Nat.ltb_spec j k); [lia|]. destruct (Nat.ltb_spec j (k + m1)); lia. }
+  assert (Hpix : forall k', k' < k -> k' <= fpiv index k').
+  { intros k' Hk'. unfold fpiv. destruct (Hix k' Hk'). lia. }
+  split.
+  - (* the rows *)
+    intros i s Hi Hs. unfold rowtr. rewrite Hh, Hpm. rewrite Hnew by auto.
+    destruct ((k <? i) && (i <? fwin n m1 k)) eqn:W.
+    + apply andb_true_iff in W as (W1 & W2). apply Nat.ltb_lt in W1, W2.
+      assert (Hi' : k <= swp k p i /\ swp k p i < fwin n m1 k).
+      { unfold swp. destruct (Nat.eqb_spec i k); [lia|]. destruct (Nat.eqb_spec i p); lia. }
+      assert (Hal1 : c_of m1 (S k) i = S k).
+      { unfold c_of. destruct (Nat.ltb_spec i (S k)); [lia|]. destruct (Nat.ltb_spec i (S k + m1)); lia. }
+      rewrite Hal1. set (h := fhist n m1 al index k (swp k p i)).
+      assert (Hth : forall q, In q h -> snd q < k) by (intros q Hq; now apply fhist_tags in Hq).
+      destruct (Nat.ltb_spec s (mm - 1)) as [Ls|Ls].
+      * rewrite uterms_app, sfold_app. rewrite (Hut _ h Hth).
+        rewrite uterms_single. replace (S k + s - k <? mm) with true by (symmetry; apply Nat.ltb_lt; lia).
+        cbn [sfold fold_left fst snd].
+        rewrite (Hrow (swp k p i) (s + 1)) by (try apply Hswn; lia). unfold rowtr. fold h.
+        rewrite (Hcw (swp k p i)) by lia.
+        replace (S k + s - k) with (s + 1) by lia. rewrite (Hrowk (s + 1)) by lia.
+        replace (k + (s + 1)) with (S k + s) by lia.
+        replace (swp k p k) with p by (unfold swp; now rewrite Nat.eqb_refl). reflexivity.
+      * rewrite (uterms_far au' (S k + s) _ (S k)).
+        2:{ intros q Hq. apply in_app_or in Hq as [Hq|[<-|[]]]; [apply Hth in Hq; lia|cbn; lia]. }
+        2:{ lia. }
+        cbn [sfold fold_left]. unfold D0.
+        pose proof (fperm_le index k (swp k p i) Hpix ltac:(lia)) as Hle.
+        replace (S k + s - (fperm index k (swp k p i) - m1) <? mm) with false by (symmetry; apply Nat.ltb_ge; lia).
+        now rewrite andb_false_r.
+    + assert (Hth : forall q, In q (fhist n m1 al index k (swp k p i)) -> snd q < k)
+        by (intros q Hq; now apply fhist_tags in Hq).
+      rewrite (Hut _ _ Hth).
+      assert (Hal2 : c_of m1 (S k) i = c_of m1 k (swp k p i)).
+      { apply andb_false_iff in W. unfold swp.
+        destruct (Nat.eqb_spec i k) as [->|Nk].
+        - rewrite (Hcw p) by lia. unfold c_of. destruct (Nat.ltb_spec k (S k)); lia.
+        - destruct (Nat.eqb_spec i p) as [->|Np].
+          + exfalso. destruct W as [W|W]; [apply Nat.ltb_ge in W|apply Nat.ltb_ge in W]; lia.
+          + unfold c_of. destruct W as [W|W]; apply Nat.ltb_ge in W; unfold fwin in W.
+            * destruct (Nat.ltb_spec i (S k)); [|lia]. destruct (Nat.ltb_spec i k); lia.
+            * destruct (Nat.ltb_spec i (S k)); [lia|]. destruct (Nat.ltb_spec i k); [lia|].
+              destruct (Nat.ltb_spec i (S k + m1)); [lia|]. destruct (Nat.ltb_spec i (k + m1)); lia. }
+      rewrite Hal2. apply (Hrow (swp k p i) s); [now apply Hswn|exact Hs].
+  - (* the multipliers *)
+    intros i Hi. unfold lok. rewrite Hh, Hpm.
+    set (h := fhist n m1 al index k (swp k p i)).
+    assert (Hth : forall q, In q h -> snd q < k) by (intros q Hq; now apply fhist_tags in Hq).
+    assert (Hold : forall t, t < length h ->
+              div (sfold (uterms au' (snd (nth t h (zero, 0))) (firstn t h))
+                     (D0 (fperm index k (swp k p i)) (snd (nth t h (zero, 0)))))
+                  (mat_at au' mm (snd (nth t h (zero, 0))) 0) = Ok (fst (nth t h (zero, 0)))).
+    { intros t Ht. pose proof (Hlok (swp k p i) (Hswn i Hi) t Ht) as HL. fold h in HL.
+      rewrite Hut by (intros q Hq; apply Hth; now apply In_firstn_In in Hq).
+      rewrite Hfr by (try apply Hth; try apply nth_In; lia). exact HL. }
+    destruct ((k <? i) && (i <? fwin n m1 k)) eqn:W; [|exact Hold].
+    apply andb_true_iff in W as (W1 & W2). apply Nat.ltb_lt in W1, W2.
+    intros t Ht. rewrite app_length in Ht. cbn [length] in Ht.
+    destruct (Nat.lt_ge_cases t (length h)) as [Lt|Ge].
+    + rewrite app_nth1 by exact Lt. rewrite firstn_app. replace (t - length h) with 0 by lia.
+      cbn [firstn]. rewrite app_nil_r. now apply Hold.
+    + assert (t = length h) as -> by lia.
+      rewrite app_nth2 by lia. rewrite Nat.sub_diag. cbn [nth fst snd].
+      rewrite firstn_app, Nat.sub_diag, firstn_all. cbn [firstn]. rewrite app_nil_r.
+      rewrite (Hut _ h Hth).
+      assert (Hi' : k <= swp k p i /\ swp k p i < fwin n m1 k).
+      { unfold swp. destruct (Nat.eqb_spec i k); [lia|]. destruct (Nat.eqb_spec i p); lia. }
+      pose proof (Hrow (swp k p i) 0 (Hswn i Hi) ltac:(lia)) as R0. unfold rowtr in R0. fold h in R0.
+      rewrite (Hcw (swp k p i)) in R0 by lia. rewrite Nat.add_0_r in R0. rewrite <- R0.
+      rewrite (Hrowk 0) by lia. pose proof (Hmul i ltac:(lia)) as HM.
+      unfold swp at 2 in HM. rewrite Nat.eqb_refl in HM. exact HM.
+Qed.
+
+End DecLoop.
+
+Theorem band_dec_trace_lemma n mm m1 (au0 al0 : matrix) (index0 : list nat) (d0 : T)
+        (au al : matrix) (index : list nat) (d : T) (lf : nat) :
+  cols au0 = mm -> cols al0 = m1 -> 1 <= mm -> m1 <= n ->
+  for_ 0 n (dec_step false n mm) (au0, al0, index0, d0, m1) = Ok (au, al, index, d, lf) ->
+  cols au = mm /\ cols al = m1 /\
+  (forall k, k < n -> k + 1 <= nth k index 0 /\ nth k index 0 <= fwin n m1 k) /\
+  ((forall k, k < n -> mat_at au mm k 0 <> zero) ->
+   (forall r s, r < n -> s < mm ->
+      mat_at au mm r s
+      = sfold (uterms mm au (r + s) (fhist n m1 al index n r)) (D0 mm m1 au0 (fperm index n r) (r + s))) /\
+   (forall r, r < n -> lok n mm m1 au0 au al index n r)).
+Proof.
+  intros Hc Hcl Hmm Hm1 E. unfold for_ in E. rewrite Nat.sub_0_r in E.
+  assert (HI : dec_inv n mm m1 au0 (0 + n) (au, al, index, d, lf)).
+  { apply (for_from_inv_partial (dec_inv n mm m1 au0) n 0 (dec_step false n mm) (au0, al0, index0, d0, m1)); auto.
+    - unfold dec_inv. split; [auto|]. split; [auto|]. split; [lia|]. split; [intros; lia|].
+      intros _. split.
+      + intros i s Hi Hs. unfold rowtr. cbn [fhist fperm]. unfold uterms. cbn [filter map sfold fold_left].
+        assert (Hc0 : c_of m1 0 i = i - m1).
+        { unfold c_of. destruct (Nat.ltb_spec i 0); [lia|]. destruct (Nat.ltb_spec i (0 + m1)); lia. }
+        rewrite Hc0. unfold D0.
+        replace (i - m1 <=? i - m1 + s) with true by (symmetry; apply Nat.leb_le; lia).
+        replace (i - m1 + s - (i - m1)) with s by lia.
+        replace (s <? mm) with true by (symmetry; apply Nat.ltb_lt; lia). reflexivity.
+      + intros i Hi. unfold lok. cbn [fhist length]. intros t Ht. lia.
+    - intros k st st' Hk HIk Ek. apply (dec_inv_step n mm m1 au0 k st st'); auto; lia. }
+  cbn [Nat.add] in HI. destruct HI as (Hc' & Hcl' & _ & Hix & Hcond).
+  split; [auto|]. split; [auto|]. split; [exact Hix|].
+  intros Hpiv. destruct (Hcond Hpiv) as (Hrow & Hlok). split; [|exact Hlok].
+  intros r s Hr Hs. rewrite (Hrow r s Hr Hs). unfold rowtr, c_of.
+  replace (r <? n) with true by (symmetry; apply Nat.ltb_lt; lia). reflexivity.
+Qed.
+
+End DecTrace.
